@@ -171,10 +171,10 @@ def r08_3(run, model):
 
 
 def run(run, model):
-    r08_1(run, model)
-    r08_2(run, model)
-    r08_3(run, model)
+    run.try_rule(r08_1, model)
+    run.try_rule(r08_2, model)
+    run.try_rule(r08_3, model)
     from rules import c05
     run.rule("R08.4", "scope layers are paired (lift::Scope push_layer/pop_layer): shared with C05 R05.3")
-    c05.paired_in_block(run, model, LIFT, "R08.4")
+    run.try_rule(c05.paired_in_block, model, LIFT, "R08.4")
     run.assume("flow of function values (through Vec/Ref/tuples/branches/arguments) is outside this check; see the known finding recorded for ty_contains_closure under C07")
